@@ -32,6 +32,7 @@ type Options struct {
 	SchedBudget  int
 	ChanScale    int
 	ChanScaleMin int
+	MakeCap      int // cap on make([]T, n) sizes (0 = none)
 	Trace        bool
 	KnownPanicSites []KnownSite // panic/deadlock sites listed as known findings
 	Prefix       []int64 // run exactly one path (replay in-engine)
